@@ -1,7 +1,174 @@
-//! C05 end-to-end part (puppet-based) — filled in once the puppet exists.
+//! C05 end-to-end part: exception record / blamed thread's list entry on real dumps.
+//! blamed thread in {main, another listed thread, a tid that is not a thread of the target} x
+//! crash context {on, off} x register files x N in {1, 3}.
+
+use crate::checks::c01::env_of;
+use crate::checks::c05::{expected_fields, vals_for};
+use crate::dump::{dump_mem, CrashSpec, DumpOpts, DumpResult, DIM_RIP, DIM_RSP};
+use crate::shapes::{build, par_map, Shape};
 use crate::Ctx;
-use mdv_core::{Report, Value};
-pub fn run(_ctx: &Ctx, _rep: &mut Report) {}
-pub fn replay(_case: &Value, rep: &mut Report) {
-    rep.machinery("end-to-end C05 replay not available yet".into());
+use mdv_core::mdparse::{ctx as off, Dump};
+use mdv_core::{json, Report, Value};
+
+const DUMP_REQUESTED: u32 = 0xFFFF_FFFF;
+
+#[derive(Clone, Debug)]
+struct Case {
+    n: usize,
+    blamed: usize, // 0 main, 1 another listed thread, 2 not a thread of the target (the checker itself)
+    ctx: bool,
+    regfile: usize,
+}
+
+fn devs_for(regfile: usize, stack_hi: u64, text: u64) -> Vec<(usize, u64)> {
+    let mut d = vec![(DIM_RSP, stack_hi - 0x1800), (DIM_RIP, text + 0x40)];
+    match regfile {
+        1 => d.push((13, 0)),                       // rax = 0
+        2 => d.push((18, 0xffff_ffff_ffff_ffff)),   // csgsfs all ones
+        3 => d.extend([(17, 0xffff_ffff_0000_0246), (25, 0xffff)]), // eflags high bits, ftw
+        4 => d.extend([(27, u64::MAX), (28, 1 << 63)]),            // x87 ip/dp
+        5 => d[0].1 = 0x10,                         // rsp unmapped
+        6 => d[1].1 = 0,                            // rip 0
+        7 => d.extend((63..127).map(|i| (i, 0xffff_ffff))), // all xmm ones
+        _ => {}
+    }
+    d
+}
+
+fn run_case(c: &Case) -> (Value, Vec<(String, String)>, bool) {
+    let case = json!({"n": c.n, "blamed": c.blamed, "ctx": c.ctx, "regfile": c.regfile});
+    let mut b = build(&Shape::threads(c.n));
+    let env = env_of(&mut b);
+    let blamed_tid: i32 = match c.blamed {
+        0 => b.p.pid,
+        1 => b.p.threads.first().map(|t| t.tid).unwrap_or(b.p.pid),
+        _ => std::process::id() as i32,
+    };
+    let listed_expected = c.blamed == 0 || (c.blamed == 1);
+    let devs = devs_for(c.regfile, env.main_stack.1, env.text.0);
+    let mut o = DumpOpts { blamed: Some(blamed_tid), ..Default::default() };
+    let (signo, code, addr) = (11u32, 0x12345i32, 0x7eee_dead_b000u64);
+    if c.ctx {
+        o.crash = Some(CrashSpec { tid: blamed_tid, signo, code, addr, devs: devs.clone() });
+    }
+    let mut fails = Vec::new();
+    let bytes = match dump_mem(b.p.pid, &o) {
+        DumpResult::Ok(x) => x,
+        DumpResult::Err(e) => {
+            // a dump may fail (C02 allows Err); nothing to attribute then
+            return (json!({"case": case, "dump_error": e}), fails, false);
+        }
+        DumpResult::Panic(p) => {
+            fails.push(("panic".into(), p));
+            return (case, fails, false);
+        }
+    };
+    let d = Dump::parse(&bytes);
+    let Some(x) = d.exception.clone() else {
+        fails.push(("no-exception-stream".into(), "the dump has no exception stream".into()));
+        return (case, fails, true);
+    };
+    if x.thread_id != blamed_tid as u32 {
+        fails.push(("wrong-blamed-thread".into(), format!("exception record names thread {} but {} was blamed", x.thread_id, blamed_tid)));
+    }
+    let entry = d.threads.iter().find(|t| t.tid == blamed_tid as u32).cloned();
+    if listed_expected && entry.is_none() {
+        fails.push(("blamed-thread-not-listed".into(), format!("blamed thread {blamed_tid} is not in the thread list")));
+    }
+    if c.ctx {
+        if x.code != signo {
+            fails.push(("signal-number-lost".into(), format!("exception code {:#x} != supplied signal number {signo}", x.code)));
+        }
+        if x.flags != code as u32 {
+            fails.push(("signal-code-lost".into(), format!("exception flags {:#x} != supplied signal code {code:#x}", x.flags)));
+        }
+        if x.address != addr {
+            fails.push(("fault-address-lost".into(), format!("exception address {:#x} != supplied fault address {addr:#x}", x.address)));
+        }
+        let want = expected_fields(&vals_for(&devs));
+        let check_ctx = |loc: &mdv_core::mdparse::Loc, what: &str, fails: &mut Vec<(String, String)>| {
+            match d.loc_bytes(&bytes, loc) {
+                Some(cb) if cb.len() == off::SIZE => {
+                    for (o, w, name) in &want {
+                        if cb[*o..*o + w.len()] != w[..] {
+                            fails.push((format!("{what}/field/{name}"), format!("{what}: register {name} differs from the supplied crash context")));
+                            break;
+                        }
+                    }
+                }
+                _ => fails.push((format!("{what}/bad-location"), format!("{what}: location ({:#x}, {}) is not a CPU context", loc.rva, loc.size))),
+            }
+        };
+        if let Some(t) = &entry {
+            if x.context.rva != t.context.rva || x.context.size != t.context.size {
+                fails.push(("exception-context-not-thread-context".into(), format!("exception context ({:#x},{}) is not the blamed thread's list-entry context ({:#x},{})", x.context.rva, x.context.size, t.context.rva, t.context.size)));
+            }
+            check_ctx(&t.context, "blamed thread's context", &mut fails);
+            check_ctx(&x.context, "exception context", &mut fails);
+        } else if x.context.size != 0 {
+            // absent blamed thread: an empty location is acceptable, a non-empty one must be the supplied context
+            check_ctx(&x.context, "exception context (blamed thread absent)", &mut fails);
+        }
+    } else {
+        if x.code != DUMP_REQUESTED {
+            fails.push(("not-dump-requested".into(), format!("without a crash context the exception code is {:#x}, not 'dump requested'", x.code)));
+        }
+        if let Some(t) = &entry {
+            if x.context.rva != t.context.rva || x.context.size != t.context.size {
+                fails.push(("exception-context-not-thread-context".into(), "exception context is not the blamed thread's captured context".into()));
+            }
+            if let Some(cb) = d.loc_bytes(&bytes, &t.context) {
+                if cb.len() == off::SIZE {
+                    let rip = off::u64_at(cb, off::RIP);
+                    if x.address != rip {
+                        fails.push(("address-not-instruction-pointer".into(), format!("exception address {:#x} != blamed thread's captured rip {rip:#x}", x.address)));
+                    }
+                }
+            }
+        }
+    }
+    (case, fails, true)
+}
+
+pub fn run(ctx: &Ctx, rep: &mut Report) {
+    let mut cases = Vec::new();
+    for n in [1usize, 3] {
+        for blamed in 0..3 {
+            if n == 1 && blamed == 1 {
+                continue;
+            }
+            for c in [true, false] {
+                let regs: Vec<usize> = if c { if ctx.tier.is_thorough() { (0..8).collect() } else { vec![0, 2, 3, 5, 7] } } else { vec![0] };
+                for regfile in regs {
+                    cases.push(Case { n, blamed, ctx: c, regfile });
+                }
+            }
+        }
+    }
+    let results = par_map(&cases, |_, c| run_case(c));
+    let mut ok = 0;
+    for (case, fails, succeeded) in results {
+        rep.evaluations += 1;
+        if succeeded {
+            ok += 1;
+            rep.nontrivial += 1;
+        }
+        if rep.samples.len() < 4 && case.get("dump_error").is_none() {
+            rep.sample(case.clone());
+        }
+        for (k, m) in fails {
+            rep.violation(&format!("dump/{k}"), &m, case.clone());
+        }
+    }
+    rep.set("end_to_end", json!({"cases": cases.len(), "dumps_succeeded": ok}));
+}
+
+pub fn replay(case: &Value, rep: &mut Report) {
+    let g = |k: &str| case.get(k).and_then(|v| v.as_u64()).unwrap_or(0) as usize;
+    let c = Case { n: g("n").max(1), blamed: g("blamed"), ctx: case.get("ctx").and_then(|v| v.as_bool()).unwrap_or(false), regfile: g("regfile") };
+    let (case, fails, _) = run_case(&c);
+    rep.evaluations += 1;
+    for (k, m) in fails {
+        rep.violation(&format!("dump/{k}"), &m, case.clone());
+    }
 }
